@@ -268,6 +268,89 @@ def run_gp(case):
     return r
 
 
+# ---------------------------------------------------------------- the posterior BOLFI itself hands out
+def sim_ab(a, b, batch_size=1, random_state=None):
+    a = np.asarray(a, dtype=float).reshape((-1, 1))
+    b = np.asarray(b, dtype=float).reshape((-1, 1))
+    return a + b + 0.1 * random_state.randn(batch_size, 3)
+
+
+def mean_row(y):
+    return np.mean(y, axis=1)
+
+
+@guarded('C10')
+def run_extract(case):
+    """BOLFI.extract_posterior(): log density == log Phi((threshold - mean)/sd) of the surrogate's noisy prediction plus
+    the log prior of the point, the columns of the point following the surrogate's parameter order - also when that
+    order is not the alphabetical order of the model's parameters and the priors are not exchangeable."""
+    import elfi
+    from elfi.methods.bo.gpy_regression import GPyRegression
+    from .. import models
+    models.native_client()
+    m = elfi.ElfiModel(name='c10extract')
+    a = elfi.Prior('norm', 0., 1., model=m, name='a')
+    b = elfi.Prior('norm', 3., .5, model=m, name='b')
+    sim = elfi.Simulator(sim_ab, a, b, observed=np.array([[3.4, 3.5, 3.6]]), model=m, name='sim')
+    s_ = elfi.Summary(mean_row, sim, model=m, name='s')
+    elfi.Distance('euclidean', s_, model=m, name='d')
+    bounds = {'a': (-2., 2.), 'b': (1., 5.)}
+    names = list(case['order'])
+    rs = np.random.RandomState(case['seed'])
+    n0 = case['n0']
+    ev = {'a': rs.uniform(*bounds['a'], n0), 'b': rs.uniform(*bounds['b'], n0)}
+    ev['d'] = np.abs(ev['a'] + ev['b'] - 3.5) + 0.05 * rs.randn(n0)
+    kw = {}
+    if case['surrogate'] == 'given':
+        kw['target_model'] = GPyRegression(names, bounds=bounds)
+    else:
+        kw['bounds'] = bounds
+        names = ['a', 'b']
+    bolfi = elfi.BOLFI(m['d'], batch_size=1, initial_evidence=ev, update_interval=2, seed=case['seed'], **kw)
+    if case['via'] == 'fit':
+        post = bolfi.fit(n_evidence=n0 + 2, bar=False)
+    else:
+        bolfi.infer(n0 + 2, bar=False)
+        post = bolfi.extract_posterior(threshold=case.get('threshold'))
+    gp = bolfi.target_model
+    if list(gp.parameter_names) != names:
+        return bad('C10:extract:surrogate-parameter-order-changed', {'case': case, 'got': list(gp.parameter_names)})
+    thr = float(post.threshold)
+    pri = {'a': (0., 1.), 'b': (3., .5)}
+    lo = np.array([bounds[k][0] for k in names])
+    hi = np.array([bounds[k][1] for k in names])
+
+    def ref(x):
+        mean, var = gp._gp.predict(np.atleast_2d(x))
+        return float(ss.norm.logcdf((thr - mean[0, 0]) / np.sqrt(var[0, 0]))) + \
+            sum(float(ss.norm.logpdf(x[j], *pri[k])) for j, k in enumerate(names))
+    n = 0
+    for fa in (0.0, 0.3, 0.5, 0.85, 1.0):
+        for fb in (0.0, 0.4, 0.7, 1.0):
+            x = lo + np.array([fa, fb]) * (hi - lo)
+            got = float(np.ravel(post.logpdf(x))[0])
+            want = ref(x)
+            n += 1
+            if not np.isclose(got, want, rtol=1e-8, atol=1e-9):
+                return bad('C10:extract:logpdf-differs-from-definition',
+                           {'case': case, 'x': x.tolist(), 'order': names, 'got': got, 'expected': want})
+            if 0 < fa < 1 and 0 < fb < 1:
+                h = 1e-5 * (hi - lo)
+                num = np.array([(-ref(x + 2 * h * e) + 8 * ref(x + h * e) - 8 * ref(x - h * e) + ref(x - 2 * h * e)) / (12 * h[j])
+                                for j, e in enumerate(np.eye(2))])
+                g = np.asarray(post.gradient_logpdf(x), dtype=float).reshape(-1)
+                if not np.allclose(g, num, rtol=1e-4, atol=1e-6 * (1 + np.abs(num).max())):
+                    return bad('C10:extract:gradient-differs-from-derivative',
+                               {'case': case, 'x': x.tolist(), 'got': g.tolist(), 'numeric': num.tolist()})
+    for x in (lo - 0.5, hi + 0.5, np.array([lo[0] - 1e-9, 0.5 * (lo[1] + hi[1])])):
+        n += 1
+        if float(np.ravel(post.logpdf(x))[0]) != -np.inf:
+            return bad('C10:extract:not-minus-inf-outside-bounds', {'case': case, 'x': x.tolist()})
+    r = ok(outcome=digest((case['order'], case['surrogate'], round(thr, 9))), extracted_posteriors=1)
+    r.update(evals=n, distinct=n)
+    return r
+
+
 # ---------------------------------------------------------------- H: update / toggle histories
 def batch_for(dim, shape_kind, k):
     """k-th batch of new evidence with the given shape kind; values distinct so order is visible."""
@@ -333,7 +416,7 @@ def run_history(case):
     return ok(outcome=digest((refX, refY)))
 
 
-RUNNERS = {'gp': run_gp, 'history': run_history}
+RUNNERS = {'gp': run_gp, 'history': run_history, 'extract': run_extract}
 
 
 def replay(case):
@@ -385,11 +468,17 @@ def run(ctx):
         if not q:
             hcases.append({'kind': 'history', 'dim': dim, 'history': [['update', '2xd', 1], ['on'], ['predict'], ['off'],
                                                                       ['update', '2xd', 1], ['on'], ['predict']]})
+    ecases = [{'kind': 'extract', 'order': order, 'surrogate': sur, 'via': via, 'seed': sd, 'n0': 12, 'threshold': thr}
+              for order, sur in ((['a', 'b'], 'default'), (['a', 'b'], 'given'), (['b', 'a'], 'given'))
+              for via, thr in (('fit', None), ('extract', None), ('extract', 0.3))
+              for sd in ((3,) if q else (3, 4))]
+    ctx.run_cases(run_extract, ecases, 'extract-posterior', chunksize=1)
     ctx.run_cases(run_history, hcases, 'histories', sample_every=max(1, len(hcases) // 4))
     ctx.rule = ('fitted-gps: full product dimension (1, 2; 3 with a reduced grid) x evidence size x target function x hyper-parameter state; per GP a full '
                 'grid of query points (inside incl. exact bounds, one ulp and 1e-9 outside, far outside) x thresholds x input shapes, '
                 'for binary-fraction and for decimal bounds; '
-                'evaluations = judged (GP, threshold, point) triples; histories: every update sequence of depth <= 3 over '
+                'evaluations = judged (GP, threshold, point) triples; extract-posterior: BOLFI.fit / extract_posterior on a '
+                'two-parameter model with default and user-given surrogates (parameter order a,b and b,a); histories: every update sequence of depth <= 3 over '
                 'three batch shapes, and every interleaving of update / sampling-mode on / off / predict up to the depth; '
                 'distinct by construction')
     ctx.assumptions += [
